@@ -87,6 +87,8 @@ func errFlowScope(c *Ctx, rule string, scope []*ssa.Function, latchUsers map[*ty
 			if d.discarded {
 				if ok, why := inMemoryDiscardOK(s.call); ok {
 					c.OK(rule, key, pos, "error discarded, allowed: "+why)
+				} else if ok, why := countedReadDiscardOK(p, fn, s.call); ok {
+					c.OK(rule, key, pos, "error discarded, allowed: "+why)
 				} else {
 					c.Bad(rule, key, pos, "error result of "+s.name+" is discarded (never extracted or never used)")
 				}
@@ -462,4 +464,60 @@ func checkSizeAccounting(c *Ctx, rule string, writeTo *ssa.Function, scope []*ss
 		}
 		c.Check(ok, rule, "nil-return only via normal loop exit", p.Pos(r.Pos()), "the only way from inside the track loop to the nil-error return is the loop's own exit test", bad)
 	}
+}
+
+// countedReadDiscardOK: the error of a one-byte Read may be dropped when the count decides:
+// every abstract path of the enclosing function that leaves through a short-count edge
+// returns a definitely non-nil error (E-abs with the short-count edges watched).
+func countedReadDiscardOK(p *Program, fn *ssa.Function, call ssa.CallInstruction) (bool, string) {
+	if !invokeIs(call, "Read") {
+		return false, ""
+	}
+	rs := analyseReadSite(call)
+	if !rs.constL || rs.bufLen != 1 || rs.count == nil {
+		return false, ""
+	}
+	mis, _ := countMismatchEdges(rs.count, 1, true, nil)
+	if len(mis) == 0 {
+		return false, ""
+	}
+	sig := fn.Signature
+	n := sig.Results().Len()
+	if n == 0 || !isErrorType(sig.Results().At(n-1).Type()) {
+		return false, ""
+	}
+	ex := NewExec(p)
+	ex.WatchEdges = map[edge]bool{}
+	for _, e := range mis {
+		ex.WatchEdges[e] = true
+	}
+	st := ex.NewState()
+	outs := ex.Call(st, fn, nil, nil)
+	if ex.Budget || len(outs) == 0 || len(ex.Unsupported) > 0 {
+		return false, ""
+	}
+	short := 0
+	for _, o := range outs {
+		took := false
+		for _, e := range o.St.Events {
+			if e.Kind == "edge" {
+				took = true
+			}
+		}
+		if !took {
+			continue
+		}
+		short++
+		if o.Panic {
+			continue
+		}
+		ev, _ := o.Ret[n-1].(*IfaceV)
+		if ev == nil || ev.Nil || (ev.Unk && !ev.NonNil) {
+			return false, ""
+		}
+	}
+	if short == 0 {
+		return false, ""
+	}
+	return true, fmt.Sprintf("one-byte Read whose count is tested; on all %d abstract paths through a short-count edge (%d paths total, loop widened with inductive invariants) the function returns a non-nil error", short, len(outs))
 }
